@@ -12,7 +12,7 @@ from sa.kern import make_evaluator
 from sa.report import Ctx
 from sa.srcmodel import FuncInfo, func_body, inline_locals
 from sa.symterm import (Env, Evaluator, Poly, Unsupported, _eq, c_and,
-                        c_not, c_or, show_cond)
+                        c_not, c_or, show, show_cond)
 
 MOD = "moptipyapps.binpacking2d.packing_space"
 
@@ -122,7 +122,8 @@ def run(ctx: Ctx) -> None:
     ctx.rule("D4.1T", "type/instance/dtype/shape checks present and raising")
     ctx.rule("D4.2", "from_str: every path to return passes validate(x) "
              "after x.n_bins is set; same separator as to_str")
-    vf = repo.func(MOD, "PackingSpace.validate")
+    from sa.srcmodel import desugared
+    vf = desugared(repo.func(MOD, "PackingSpace.validate"))
     ev = make_evaluator(repo, vf, extra_call=_passthrough_calls)
     ev.int_transparent = True
     ev.compose_rows = True
@@ -165,6 +166,9 @@ def run(ctx: Ctx) -> None:
             args = [ev.num(e, a) for a in it.args]
         except Unsupported:
             return False
+        # len(x) is n_items: validate rejects any other shape first (F1)
+        args = [R.ni if isinstance(a, Poly) and show(a) in (
+            f"len({xname})", f"len_of({xname})") else a for a in args]
         if len(args) == 1:
             return args[0] == R.ni
         if len(args) == 2:
@@ -348,7 +352,9 @@ def _pair_clause(ctx: Ctx, vf: FuncInfo, ev: Evaluator, gw: GuardWalk,
                ("lt", R2.B, R.T), ("lt", R.B, R2.T))
     side = [("lt", R.L, R.R), ("lt", R.B, R.T), ("lt", R2.L, R2.R),
             ("lt", R2.B, R2.T)]
-    sp = Splitter(integer=False)
+    # packing coordinates are integers (P2): `a <= b` is the complement of
+    # `b < a`, which the real-valued mode does not prune
+    sp = Splitter(integer=True)
     facts0: list[Any] = []
     for c_ in side:
         facts0 += sp.facts_of(c_, True)[0]
@@ -591,6 +597,10 @@ def _type_clauses(ctx: Ctx, vf: FuncInfo, xname: str) -> None:
             want["isinstance(x, Packing)"] = True
         if isinstance(t, ast.Compare) and len(t.ops) == 1 and isinstance(
                 t.ops[0], (ast.IsNot, ast.NotEq)):
+            # temporaries (`x_dtype = x.dtype`) are looked through
+            t = ast.Compare(left=inline_locals(vf.node, t.left), ops=t.ops,
+                            comparators=[inline_locals(
+                                vf.node, t.comparators[0])])
             sides = {ast.unparse(t.left), ast.unparse(t.comparators[0])}
             if f"{xname}.instance" in sides and len(sides) == 2:
                 want["x.instance is the space's instance"] = True
@@ -645,10 +655,12 @@ def _from_str(ctx: Ctx) -> None:
         arg_ok = False
         for n in cfg.find(is_validate):
             for c in calls_in(n.ast):
+                va = c.args[0] if c.args else next(
+                    (k_.value for k_ in c.keywords if k_.arg == "x"), None)
                 if isinstance(c.func, ast.Attribute) and \
-                        c.func.attr == "validate" and c.args and \
+                        c.func.attr == "validate" and va is not None and \
                         isinstance(v, ast.Name) and isinstance(
-                        c.args[0], ast.Name) and c.args[0].id == v.id:
+                        va, ast.Name) and va.id == v.id:
                     arg_ok = True
         ctx.ob("D4.2", fs, r.ast, ok and arg_ok,
                "every path to this return passes self.validate(<returned "
